@@ -45,10 +45,12 @@ import (
 // ------------------------------------------------------------------------
 
 type c06Coll struct {
-	UUID     string
-	Mod      time.Time
-	Manifest string
-	Repl     int // 0 = null
+	UUID       string
+	Mod        time.Time
+	Manifest   string
+	Repl       int  // 0 = null
+	Trashed    bool // listed only with include_trash
+	OldVersion bool // a past version (current_version_uuid != uuid): listed only with include_old_versions
 }
 
 type c06Filter struct {
@@ -61,31 +63,36 @@ type c06ListReq struct {
 	Filters  []c06Filter
 	Limit    int
 	HasLimit bool
+	Offset   int
 	Count    string
 	Order    string
+	Select   []string // nil = every attribute
+	InclTr   bool
+	InclOld  bool
 	Form     string // get-query | post-override-header | post-_method
 	Mode     string // filter signature, e.g. "modified_at>=,uuid!="
 }
 
 type c06ListStats struct {
-	Requests    int
-	Pages       int
-	Counts      int
-	ByForm      map[string]int
-	ByMode      map[string]int
-	ShortPages  int
-	EmptyPages  int
-	MaxTieInRes int // largest number of equal timestamps inside one response
-	TiePages    int // pages that ended inside a run of equal timestamps
-	Unsupported []string
+	Requests       int
+	Pages          int
+	Counts         int
+	ByForm         map[string]int
+	ByMode         map[string]int
+	ShortPages     int
+	EmptyPages     int
+	MaxTieInRes    int // largest number of equal timestamps inside one response
+	TiePages       int // pages that ended inside a run of equal timestamps
+	OffsetRequests int
+	Unsupported    []string
 }
 
 type c06Table struct {
 	mu        sync.Mutex
 	rows      map[string]*c06Coll
-	serverMax int                                 // server-side page size cap (0 = none)
-	short     func(nmatch, limit int) int         // optional: how many of the matching rows to return
-	before    func(q *c06ListReq, reqNo int)      // called with mu held before a request is answered
+	serverMax int                                  // server-side page size cap (0 = none)
+	short     func(nmatch, limit int) int          // optional: how many of the matching rows to return
+	before    func(q *c06ListReq, reqNo int)       // called with mu held before a request is answered
 	after     func(q *c06ListReq, page []*c06Coll) // called with mu held after the page was chosen
 	stats     c06ListStats
 }
@@ -152,10 +159,89 @@ func c06ParseList(r *http.Request) (c06ListReq, error) {
 		return q, fmt.Errorf("count %q", q.Count)
 	}
 	q.Order = r.Form.Get("order")
-	if s := r.Form.Get("offset"); s != "" && s != "0" {
-		return q, fmt.Errorf("offset %q not supported by the model", s)
+	if s := r.Form.Get("offset"); s != "" {
+		n, err := strconv.Atoi(s)
+		if err != nil || n < 0 {
+			return q, fmt.Errorf("offset %q", s)
+		}
+		q.Offset = n
+	}
+	truthy := func(name string) (bool, error) {
+		switch v := strings.ToLower(r.Form.Get(name)); v {
+		case "", "0", "false", "f", "no":
+			return false, nil
+		case "1", "true", "t", "yes":
+			return true, nil
+		default:
+			return false, fmt.Errorf("%s=%q", name, v)
+		}
+	}
+	var err error
+	if q.InclTr, err = truthy("include_trash"); err != nil {
+		return q, err
+	}
+	if q.InclOld, err = truthy("include_old_versions"); err != nil {
+		return q, err
+	}
+	if _, err = truthy("distinct"); err != nil { // rows of the model are distinct anyway
+		return q, err
+	}
+	if s := r.Form.Get("select"); s != "" {
+		if err := json.Unmarshal([]byte(s), &q.Select); err != nil {
+			return q, fmt.Errorf("select: %v", err)
+		}
+		for _, a := range q.Select {
+			if !c06Attrs[a] {
+				return q, fmt.Errorf("select: invalid attribute %q", a)
+			}
+		}
+		if q.Select == nil {
+			q.Select = []string{}
+		}
+	}
+	for name := range r.Form {
+		if !c06ListParams[name] {
+			return q, fmt.Errorf("list parameter %q not supported by the model", name)
+		}
 	}
 	return q, nil
+}
+
+// every parameter of the list API except the legacy "where" (not modelled)
+var c06ListParams = map[string]bool{"filters": true, "limit": true, "offset": true, "order": true, "count": true, "select": true,
+	"distinct": true, "include_trash": true, "include_old_versions": true, "_method": true, "bypass_federation": true, "cluster_id": true, "reader_tokens": true}
+
+var c06Attrs = map[string]bool{"uuid": true, "modified_at": true, "created_at": true, "portable_data_hash": true, "manifest_text": true,
+	"unsigned_manifest_text": true, "replication_desired": true, "is_trashed": true, "current_version_uuid": true, "name": true,
+	"owner_uuid": true, "storage_classes_desired": true, "version": true}
+
+// item renders a row with the selected attributes (all of them if sel is nil;
+// unsigned_manifest_text only on request, like the API).
+func (c *c06Coll) item(sel []string) map[string]interface{} {
+	cur := c.UUID
+	if c.OldVersion {
+		cur = c.UUID[:12] + "currentversion0"
+	}
+	var repl interface{}
+	if c.Repl > 0 {
+		repl = c.Repl
+	}
+	all := map[string]interface{}{
+		"uuid": c.UUID, "modified_at": c.Mod.UTC(), "created_at": c.Mod.UTC(),
+		"portable_data_hash": fmt.Sprintf("%s+%d", verifkit.MD5Hex([]byte(c.Manifest)), len(c.Manifest)),
+		"manifest_text":      c.Manifest, "unsigned_manifest_text": c.Manifest, "replication_desired": repl,
+		"is_trashed": c.Trashed, "current_version_uuid": cur, "name": "", "owner_uuid": "zzzzz-tpzed-000000000000000",
+		"storage_classes_desired": []string{"default"}, "version": 1,
+	}
+	if sel == nil {
+		delete(all, "unsigned_manifest_text")
+		return all
+	}
+	out := map[string]interface{}{}
+	for _, a := range sel {
+		out[a] = all[a]
+	}
+	return out
 }
 
 func c06Cmp(op string, c int) (bool, error) {
@@ -323,7 +409,7 @@ func (tb *c06Table) ServeHTTP(w http.ResponseWriter, r *http.Request) {
 			fail(err)
 			return
 		}
-		if ok {
+		if ok && (!c.Trashed || q.InclTr) && (!c.OldVersion || q.InclOld) {
 			matched = append(matched, c)
 		}
 	}
@@ -333,6 +419,16 @@ func (tb *c06Table) ServeHTTP(w http.ResponseWriter, r *http.Request) {
 	}
 	tb.stats.ByForm[q.Form]++
 	tb.stats.ByMode[q.Mode]++
+	navail := len(matched)
+	// offset: skip that many rows of the filtered, ordered result
+	if q.Offset > 0 {
+		tb.stats.OffsetRequests++
+		if q.Offset > len(matched) {
+			matched = nil
+		} else {
+			matched = matched[q.Offset:]
+		}
+	}
 	nret := len(matched)
 	if q.Limit < nret {
 		nret = q.Limit
@@ -374,30 +470,18 @@ func (tb *c06Table) ServeHTTP(w http.ResponseWriter, r *http.Request) {
 			tb.stats.TiePages++
 		}
 	}
-	type item struct {
-		UUID     string    `json:"uuid"`
-		Mod      time.Time `json:"modified_at"`
-		PDH      string    `json:"portable_data_hash"`
-		Manifest string    `json:"unsigned_manifest_text"`
-		Repl     *int      `json:"replication_desired"`
-	}
 	resp := struct {
-		Kind  string `json:"kind"`
-		Items []item `json:"items"`
-		Avail *int   `json:"items_available,omitempty"`
-		Limit int    `json:"limit"`
-	}{Kind: "arvados#collectionList", Items: []item{}, Limit: q.Limit}
+		Kind   string                   `json:"kind"`
+		Items  []map[string]interface{} `json:"items"`
+		Avail  *int                     `json:"items_available,omitempty"`
+		Offset int                      `json:"offset"`
+		Limit  int                      `json:"limit"`
+	}{Kind: "arvados#collectionList", Items: []map[string]interface{}{}, Limit: q.Limit, Offset: q.Offset}
 	for _, c := range page {
-		it := item{UUID: c.UUID, Mod: c.Mod.UTC(), Manifest: c.Manifest, PDH: fmt.Sprintf("%s+%d", verifkit.MD5Hex([]byte(c.Manifest)), len(c.Manifest))}
-		if c.Repl > 0 {
-			r := c.Repl
-			it.Repl = &r
-		}
-		resp.Items = append(resp.Items, it)
+		resp.Items = append(resp.Items, c.item(q.Select))
 	}
 	if q.Count == "exact" {
-		n := len(matched)
-		resp.Avail = &n
+		resp.Avail = &navail
 	}
 	if tb.after != nil && q.Limit != 0 {
 		tb.after(&q, page)
@@ -611,14 +695,25 @@ func c06RunPaging(t *testing.T, run *verifkit.Run) {
 			}
 		}
 		var initial [][2]string
+		nTrashed, nOldVer := 0, 0
 		required := map[string]bool{}
 		for _, k := range groups {
 			now = now.Add(step * time.Duration(1+rng.Intn(3)))
 			for j := 0; j < k; j++ {
 				u := newUUID()
-				tb.rows[u] = &c06Coll{UUID: u, Mod: now}
-				required[u] = true
-				initial = append(initial, [2]string{u, c06Fmt(now)})
+				row := &c06Coll{UUID: u, Mod: now, Trashed: rng.Chance(1, 6), OldVersion: rng.Chance(1, 6)}
+				tb.rows[u] = row
+				required[u] = true // trashed collections and past versions exist too: their blocks are still referenced
+				flags := ""
+				if row.Trashed {
+					flags += " trashed"
+					nTrashed++
+				}
+				if row.OldVersion {
+					flags += " old-version"
+					nOldVer++
+				}
+				initial = append(initial, [2]string{u, c06Fmt(now) + flags})
 			}
 		}
 		// ---- schedule of concurrent changes, applied between requests
@@ -690,7 +785,7 @@ func c06RunPaging(t *testing.T, run *verifkit.Run) {
 					}
 				}
 				var victim *c06Coll
-				pick := rng.PickStr("random", "last-returned", "next-unseen", "tie-mate-of-last", "previous", "any-returned")
+				pick := rng.PickStr("random", "last-returned", "last-returned", "last-returned", "next-unseen", "tie-mate-of-last", "previous", "any-returned")
 				switch {
 				case pick == "last-returned" && pos >= 0:
 					victim = all[pos]
@@ -758,6 +853,14 @@ func c06RunPaging(t *testing.T, run *verifkit.Run) {
 		run.Count("a_mutations_delete", nDel)
 		run.Count("a_callbacks", calls)
 		run.Count("a_required_collections_checked", len(required))
+		for _, m := range muts {
+			if m.Pick == "last-returned" {
+				run.Count("a_mutations_on_last_item_of_delivered_page_"+m.Kind, 1)
+			}
+		}
+		run.Count("a_trashed_collections", nTrashed)
+		run.Count("a_old_version_collections", nOldVer)
+		run.Count("a_requests_with_offset", st.OffsetRequests)
 		run.CountMax("max_a_tie_multiplicity", c.MaxTie)
 		run.CountMax("max_a_requests_in_one_scan", st.Requests)
 		for f, k := range st.ByForm {
@@ -925,6 +1028,98 @@ type c06FaultCtl struct {
 	target string
 	mode   string
 	fired  int
+	delays *c06Delays // nil = no injected delays
+}
+
+// c06Delays is the source of the injected delays of the "failstop-delay"
+// stream (slow log sink, slow collection pages, slowly failing keepstore).
+// Its PRNG is shared by several goroutines, hence the lock.
+type c06Delays struct {
+	mu  sync.Mutex
+	rng *verifkit.Rand
+	n   map[string]int
+	ms  map[string]int
+}
+
+// sleep waits lo..hi milliseconds with probability num/den.
+func (d *c06Delays) sleep(kind string, num, den, lo, hi int) {
+	if d == nil {
+		return
+	}
+	d.mu.Lock()
+	ms := -1
+	if d.rng.Chance(num, den) {
+		ms = d.rng.Range(lo, hi)
+		d.n[kind]++
+		d.ms[kind] += ms
+	}
+	d.mu.Unlock()
+	if ms > 0 {
+		time.Sleep(time.Duration(ms) * time.Millisecond)
+	}
+}
+
+var c06ErrorishRe = regexp.MustCompile(`(?i)error|fail|cannot|unable|refus|time(d )?out|reset|EOF|unexpected|cancel|: [45][0-9][0-9] `)
+
+// c06SlowLogger is the Balancer's logger in the "failstop-delay" stream: a
+// log sink that is sometimes slow, more often and longer for entries that
+// report a problem (by level or by wording), as a remote or disk-bound sink
+// is. It never alters or drops an entry.
+type c06SlowLogger struct {
+	*logrus.Logger
+	d *c06Delays
+}
+
+func (l *c06SlowLogger) pause(level logrus.Level, msg string) {
+	switch {
+	case level <= logrus.WarnLevel || c06ErrorishRe.MatchString(msg):
+		l.d.sleep("log-problem-entry", 3, 4, 20, 100)
+	case level >= logrus.DebugLevel:
+		l.d.sleep("log-debug-entry", 1, 2, 1, 6)
+	default:
+		l.d.sleep("log-info-entry", 1, 8, 1, 30)
+	}
+}
+func (l *c06SlowLogger) Debugf(f string, a ...interface{}) {
+	l.pause(logrus.DebugLevel, fmt.Sprintf(f, a...))
+	l.Logger.Debugf(f, a...)
+}
+func (l *c06SlowLogger) Infof(f string, a ...interface{}) {
+	l.pause(logrus.InfoLevel, fmt.Sprintf(f, a...))
+	l.Logger.Infof(f, a...)
+}
+func (l *c06SlowLogger) Printf(f string, a ...interface{}) {
+	l.pause(logrus.InfoLevel, fmt.Sprintf(f, a...))
+	l.Logger.Printf(f, a...)
+}
+func (l *c06SlowLogger) Warnf(f string, a ...interface{}) {
+	l.pause(logrus.WarnLevel, fmt.Sprintf(f, a...))
+	l.Logger.Warnf(f, a...)
+}
+func (l *c06SlowLogger) Warningf(f string, a ...interface{}) { l.Warnf(f, a...) }
+func (l *c06SlowLogger) Errorf(f string, a ...interface{}) {
+	l.pause(logrus.ErrorLevel, fmt.Sprintf(f, a...))
+	l.Logger.Errorf(f, a...)
+}
+func (l *c06SlowLogger) Debug(a ...interface{}) {
+	l.pause(logrus.DebugLevel, fmt.Sprint(a...))
+	l.Logger.Debug(a...)
+}
+func (l *c06SlowLogger) Info(a ...interface{}) {
+	l.pause(logrus.InfoLevel, fmt.Sprint(a...))
+	l.Logger.Info(a...)
+}
+func (l *c06SlowLogger) Print(a ...interface{}) {
+	l.pause(logrus.InfoLevel, fmt.Sprint(a...))
+	l.Logger.Print(a...)
+}
+func (l *c06SlowLogger) Warn(a ...interface{}) {
+	l.pause(logrus.WarnLevel, fmt.Sprint(a...))
+	l.Logger.Warn(a...)
+}
+func (l *c06SlowLogger) Error(a ...interface{}) {
+	l.pause(logrus.ErrorLevel, fmt.Sprint(a...))
+	l.Logger.Error(a...)
 }
 
 func (fc *c06FaultCtl) reset(record bool, target, mode string) string {
@@ -936,6 +1131,7 @@ func (fc *c06FaultCtl) reset(record bool, target, mode string) string {
 	fc.record = record
 	fc.keys = nil
 	fc.target, fc.mode, fc.fired = target, mode, 0
+	fc.delays = nil
 	return fc.token
 }
 
@@ -1009,11 +1205,20 @@ func (fc *c06FaultCtl) wrap(server string, h http.Handler) http.Handler {
 		if hit {
 			fc.fired++
 		}
+		delays := fc.delays
 		fc.mu.Unlock()
 		if !hit {
+			switch typ {
+			case "collections-page":
+				delays.sleep("slow-collections-page", 3, 4, 1, 8)
+			case "index":
+				delays.sleep("slow-index", 1, 2, 1, 20)
+			}
 			h.ServeHTTP(w, r)
 			return
 		}
+		// the failing server takes its time to fail
+		delays.sleep("slow-failure", 1, 1, 3, 90)
 		hijack := func() net.Conn {
 			hj, ok := w.(http.Hijacker)
 			if !ok {
@@ -1098,7 +1303,7 @@ type c06StopCase struct {
 
 const c06OldMtime = int64(1400000000000000000) // 2014, far older than any signature TTL
 
-func c06NewWorld(t *testing.T, rng *verifkit.Rand) (*c06World, c06StopCase) {
+func c06NewWorld(t *testing.T, rng *verifkit.Rand, moreColls int) (*c06World, c06StopCase) {
 	w := &c06World{table: c06NewTable(), fc: &c06FaultCtl{occ: map[string]int{}}}
 	var c c06StopCase
 	c.Stores = rng.Range(2, 3)
@@ -1183,7 +1388,7 @@ func c06NewWorld(t *testing.T, rng *verifkit.Rand) (*c06World, c06StopCase) {
 	for _, b := range fine {
 		defs = append(defs, cdef{manifest(b), 1})
 	}
-	for i := rng.Range(0, 2); i > 0; i-- { // extra collections re-referencing a "fine" block
+	for i := rng.Range(0, 2) + moreColls; i > 0; i-- { // extra collections re-referencing a "fine" block
 		defs = append(defs, cdef{manifest(fine[rng.Intn(len(fine))]), 1})
 	}
 	perm := rng.Perm(len(defs))
@@ -1291,13 +1496,17 @@ type c06SweepResult struct {
 	nonEmptyTr   int
 	fired        int
 	stale        int
+	pages        int // collection pages served by the table during this sweep
 	keys         []c06ReqKey
 	timedOut     bool
 }
 
 // sweep performs one real Balancer.Run against the world.
-func (w *c06World) sweep(pageSize int, record bool, target, mode string) c06SweepResult {
+func (w *c06World) sweep(pageSize int, record bool, target, mode string, delays *c06Delays) c06SweepResult {
 	token := w.fc.reset(record, target, mode)
+	w.fc.mu.Lock()
+	w.fc.delays = delays
+	w.fc.mu.Unlock()
 	w.mu.Lock()
 	w.puts = nil
 	w.mu.Unlock()
@@ -1316,8 +1525,16 @@ func (w *c06World) sweep(pageSize int, record bool, target, mode string) c06Swee
 	cluster := &arvados.Cluster{}
 	cluster.Collections.BalanceCollectionBatch = pageSize
 	cluster.Collections.BalanceCollectionBuffers = 4
+	if delays != nil {
+		cluster.Collections.BalanceCollectionBuffers = 8
+	}
 	cluster.Collections.BalanceTimeout = arvados.Duration(3 * time.Minute)
-	logger := c06Logger()
+	var logger logrus.FieldLogger = c06Logger()
+	if delays != nil {
+		ll := c06Logger()
+		ll.Level = logrus.DebugLevel
+		logger = &c06SlowLogger{Logger: ll, d: delays}
+	}
 	bal := &Balancer{Logger: logger, Metrics: newMetrics(prometheus.NewRegistry())}
 	var res c06SweepResult
 	done := make(chan struct{})
@@ -1354,6 +1571,9 @@ func (w *c06World) sweep(pageSize int, record bool, target, mode string) c06Swee
 	w.fc.stale = 0
 	res.keys = append(res.keys, w.fc.keys...)
 	w.fc.mu.Unlock()
+	w.table.mu.Lock()
+	res.pages = w.table.stats.Pages
+	w.table.mu.Unlock()
 	return res
 }
 
@@ -1369,14 +1589,14 @@ func c06KeySet(keys []c06ReqKey) string {
 func c06RunFailStop(t *testing.T, run *verifkit.Run) {
 	n := run.N(5, 80)
 	run.Cases("failstop", n, func(i int, rng *verifkit.Rand) {
-		w, c := c06NewWorld(t, rng)
+		w, c := c06NewWorld(t, rng, 0)
 		defer w.Close()
 		run.Input(c, false)
 
 		// ---- fault-free sweeps: number the requests, make sure the scenario
 		// really commits something, and that the numbering is reproducible
-		base := w.sweep(c.PageSize, true, "", "")
-		again := w.sweep(c.PageSize, true, "", "")
+		base := w.sweep(c.PageSize, true, "", "", nil)
+		again := w.sweep(c.PageSize, true, "", "", nil)
 		run.Eval(1)
 		switch {
 		case base.timedOut || again.timedOut:
@@ -1434,7 +1654,7 @@ func c06RunFailStop(t *testing.T, run *verifkit.Run) {
 			run.Inconclusive("C06(c): no first collections page request found in the fault-free sweep")
 		}
 		for _, p := range plans {
-			res := w.sweep(c.PageSize, false, p.key.ID, p.mode)
+			res := w.sweep(c.PageSize, false, p.key.ID, p.mode, nil)
 			if res.timedOut {
 				run.Inconclusive(fmt.Sprintf("C06(c): Balancer.Run did not finish within 4 minutes with %s on %s", p.mode, p.key.ID))
 				return
@@ -1496,9 +1716,98 @@ func c06RunFailStop(t *testing.T, run *verifkit.Run) {
 	})
 }
 
+// c06RunFailStopDelays repeats the index-fault part of the fail-stop sweep
+// under injected delays: a sometimes-slow log sink (slower for entries that
+// report a problem), slow collection pages, a keepstore that takes a while to
+// fail, and a long collection scan, so that the index request fails while the
+// collection worker has collections queued. The oracle is the one of (c).
+func c06RunFailStopDelays(t *testing.T, run *verifkit.Run) {
+	n := run.N(2, 24)
+	reps := run.N(3, 6)
+	run.Cases("failstop-delay", n, func(i int, rng *verifkit.Rand) {
+		w, c := c06NewWorld(t, rng, rng.Range(25, 45))
+		defer w.Close()
+		c.PageSize = rng.Range(3, 6)
+		run.Input(c, false)
+		base := w.sweep(c.PageSize, true, "", "", nil)
+		run.Eval(1)
+		switch {
+		case base.timedOut:
+			run.Inconclusive("C06(c/delay): fault-free Balancer.Run did not finish within 4 minutes")
+			return
+		case base.err != nil:
+			run.Inconclusive(fmt.Sprintf("C06(c/delay): fault-free Balancer.Run failed: %v", base.err))
+			return
+		case base.nonEmptyTr == 0 || base.nonEmptyPull == 0:
+			run.Inconclusive("C06(c/delay): fault-free sweep commits nothing; the scenario cannot show a premature commit")
+			return
+		}
+		run.Count("cd_scenarios", 1)
+		run.Count("cd_collections", len(c.Collections))
+		delays := &c06Delays{rng: rng.Fork(), n: map[string]int{}, ms: map[string]int{}}
+		// a fault-free sweep under delays must still succeed and commit
+		slow := w.sweep(c.PageSize, false, "", "", delays)
+		run.Eval(1)
+		if slow.timedOut || slow.err != nil || slow.nonEmptyTr == 0 || slow.nonEmptyPull == 0 {
+			run.Inconclusive(fmt.Sprintf("C06(c/delay): fault-free sweep under delays: timedOut=%v err=%v trash=%d pull=%d", slow.timedOut, slow.err, slow.nonEmptyTr, slow.nonEmptyPull))
+			return
+		}
+		for _, k := range base.keys {
+			if k.Type != "index" {
+				continue
+			}
+			for _, mode := range c06Modes {
+				for rep := 0; rep < reps; rep++ {
+					res := w.sweep(c.PageSize, false, k.ID, mode, delays)
+					if res.timedOut {
+						run.Inconclusive(fmt.Sprintf("C06(c/delay): Balancer.Run did not finish within 4 minutes with %s on %s", mode, k.ID))
+						return
+					}
+					if res.fired == 0 {
+						run.Inconclusive(fmt.Sprintf("C06(c/delay): the sweep never issued request %q", k.ID))
+						continue
+					}
+					run.Eval(2)
+					run.Count("cd_index_faults_injected_under_delays", 1)
+					run.Count("cd_faults_"+mode, 1)
+					run.Count("cd_collection_pages_served_before_run_ended", res.pages)
+					if res.pages >= 2 {
+						run.Count("cd_faults_with_collection_scan_under_way", 1)
+					}
+					wit := map[string]interface{}{"case": c, "failed_request": k.ID, "request_type": "index", "mode": mode, "delays": "log sink / collection pages / failing keepstore (PRNG)"}
+					if len(res.nonEmpty) > 0 {
+						var sb strings.Builder
+						for _, pt := range res.nonEmpty {
+							fmt.Fprintf(&sb, "\n  %s PUT %s (%d items): %s", pt.Server, pt.Path, pt.Items, strings.TrimSpace(pt.Body))
+						}
+						run.Violation("C06:c:commit-after-failed-index:"+mode+":under-delays",
+							fmt.Sprintf("request %q failed (%s) while the collection scan was under way (slow log sink, slow pages); Balancer.Run (err=%v) still sent non-empty lists:%s", k.ID, mode, res.err, sb.String()), wit)
+					}
+					if res.err == nil {
+						run.Violation("C06:c:run-succeeds-after-failed-index:"+mode+":under-delays",
+							fmt.Sprintf("request %q failed (%s) while the collection scan was under way (slow log sink, slow pages) but Balancer.Run returned nil", k.ID, mode), wit)
+					}
+					outcome := "run-error"
+					if res.err == nil {
+						outcome = "run-ok"
+					}
+					run.Feature(fmt.Sprintf("cd:index:%s:%s:pages>=2=%v", mode, outcome, res.pages >= 2))
+				}
+			}
+		}
+		delays.mu.Lock()
+		for k, v := range delays.n {
+			run.Count("cd_delays_"+k, v)
+			run.Count("cd_delay_ms_"+k, delays.ms[k])
+		}
+		delays.mu.Unlock()
+	})
+}
+
 func TestVerifC06(t *testing.T) {
 	run := verifkit.Start(t, "C06")
 	defer run.Finish()
 	c06RunPaging(t, run)
 	c06RunFailStop(t, run)
+	c06RunFailStopDelays(t, run)
 }
